@@ -32,6 +32,7 @@ type cliCase struct {
 	BatchSize int      `json:",omitempty"` // --batch-size of every run (0: default)
 	Runs      []cliRun // the first one is the reference
 	TimeoutS  int      `json:",omitempty"` // kill timer of one run in seconds (0: the default of run.Cmd, 60 s)
+	NoHeadRun bool     `json:",omitempty"` // the additional run with -H is left out (large files)
 }
 
 // fastaOf writes the data set the way obiuniq -m sample would.
@@ -268,9 +269,9 @@ func checkRecordConsistency(id string, r rec, o outRec) error {
 	return nil
 }
 
-// checkCLIModel compares the reference run at the defaults with the model; one is
-// the one-difference predicate of the model (levOne on the small data sets).
-func checkCLIModel(c cliCase, out map[string]outRec, one func(a, b string) bool) error {
+// checkCLIModel compares the reference run at the defaults with the model
+// (quadratic(levOne) on the small data sets).
+func checkCLIModel(c cliCase, out map[string]outRec, model graphModel) error {
 	seqOf := map[string]string{}
 	for _, r := range c.Recs {
 		seqOf[r.Id] = r.Seq
@@ -278,7 +279,7 @@ func checkCLIModel(c cliCase, out map[string]outRec, one func(a, b string) bool)
 	wantMut := map[string]map[string]bool{} // son -> fathers (any sample)
 	samples := refSamples(c.Recs)
 	for _, name := range sortedKeys(samples) {
-		g := refGraph(samples[name], one)
+		g := model(samples[name])
 		for _, n := range samples[name] {
 			want := statusOf(len(g.Fathers[n.Id]), g.Sons[n.Id])
 			if got := out[n.Id].Status[name]; got != want {
@@ -294,6 +295,14 @@ func checkCLIModel(c cliCase, out map[string]outRec, one func(a, b string) bool)
 				}
 				wantMut[n.Id][f] = true
 			}
+		}
+		// what is asserted of the weights through hook H4 holds for the weights the command writes
+		o := &obsSample{Nodes: map[string]obsNode{}}
+		for _, n := range samples[name] {
+			o.Nodes[n.Id] = obsNode{Count: n.Count, Weight: out[n.Id].Weight[name]}
+		}
+		if err := checkWeights(name, samples[name], g, o); err != nil {
+			return fmt.Errorf("obiclean_weight: %v", err)
 		}
 	}
 	for _, r := range c.Recs {
@@ -315,9 +324,9 @@ func checkCLIModel(c cliCase, out map[string]outRec, one func(a, b string) bool)
 	return nil
 }
 
-func checkCLI(c cliCase) error { return checkCLIWith(c, levOne) }
+func checkCLI(c cliCase) error { return checkCLIWith(c, quadratic(levOne)) }
 
-func checkCLIWith(c cliCase, one func(a, b string) bool) error {
+func checkCLIWith(c cliCase, model graphModel) error {
 	if !run.Have("obiclean") {
 		return fmt.Errorf("the obiclean command was not built")
 	}
@@ -360,9 +369,12 @@ func checkCLIWith(c cliCase, one func(a, b string) bool) error {
 		if k == 0 {
 			base, baseDesc = out, desc
 			if c.Dist == 1 && c.Ratio == 1.0 {
-				if err := checkCLIModel(c, out, one); err != nil {
+				if err := checkCLIModel(c, out, model); err != nil {
 					return fmt.Errorf("%s: %v", desc, err)
 				}
+			}
+			if c.NoHeadRun {
+				continue
 			}
 			// -H keeps exactly the records flagged obiclean_head, unchanged
 			hout, hdesc, err := runClean(c, r, file, true)
